@@ -26,6 +26,10 @@ struct State {
     checked: u64, skipped_occurs: u64, skipped_ambiguous: u64, skipped_func: u64,
     succ: u64, fail: u64, anon_top: u64, with_prior_bindings: u64, ids_checked: u64,
     violation: Option<(String, String)>,
+    /// set with the first violation: the callback then unwinds out of the engine (the run is
+    /// over as far as the monitor is concerned; a search that goes on after, say, a cyclic
+    /// binding could hang)
+    abort: bool,
 }
 
 thread_local! { static STATE: RefCell<State> = RefCell::new(State::default()); }
@@ -49,7 +53,7 @@ fn show_ss(ss: &SubstitutionSet) -> String {
     ss.iter().enumerate().filter_map(|(i, e)| e.as_ref().map(|v| format!("{}->{}", i, v))).collect::<Vec<_>>().join(" ")
 }
 
-fn violate(st: &mut State, sig: String, wit: String) { if st.violation.is_none() { st.violation = Some((sig, wit)); } }
+fn violate(st: &mut State, sig: String, wit: String) { if st.violation.is_none() { st.violation = Some((sig, wit)); st.abort = true; } }
 
 fn on_unify(st: &mut State, site: &str, left: &Unifiable, right: &Unifiable, ss_in: &SubstitutionSet, ss_out: Option<&SubstitutionSet>) {
     let which = match st.which { Some(w) => w, None => return };
@@ -174,14 +178,16 @@ fn on_rename(st: &mut State, predicate: &str, index: usize, stored: &Rule, renam
 pub fn install(which: Prop) {
     STATE.with(|s| { *s.borrow_mut() = State { which: Some(which), ..State::default() }; });
     set_hook(Some(Box::new(|e: &HookEvent| {
-        STATE.with(|s| {
-            let mut st = match s.try_borrow_mut() { Ok(g) => g, Err(_) => return };
+        let abort = STATE.with(|s| {
+            let mut st = match s.try_borrow_mut() { Ok(g) => g, Err(_) => return false };
             match e {
                 HookEvent::HeadUnify { head, goal, ss_in, ss_out } => { st.unify_events += 1; on_unify(&mut st, "head", head, goal, ss_in, *ss_out); }
                 HookEvent::BipUnify { left, right, ss_in, ss_out } => { st.bip_unify_events += 1; on_unify(&mut st, "=", left, right, ss_in, *ss_out); }
                 HookEvent::Rename { predicate, index, stored, renamed, goal, ss, id_before, id_after } => { st.rename_events += 1; on_rename(&mut st, predicate, *index, stored, renamed, goal, ss, *id_before, *id_after); }
             }
+            let a = st.abort; st.abort = false; a
         });
+        if abort { std::panic::resume_unwind(Box::new("verif: run abandoned after a violation")); }
     })));
 }
 
